@@ -131,6 +131,16 @@ def run(sc, tier, seed):
             break
         dv = _validate_jobs(sc, [("drift", f) + DRIFT for f in todo]).get("drift", EMPTY)
     R.states += dstates
+    # 4. neighbouring behaviour: crash + restart inside the one-time V1 -> V2 topic store migration
+    R.add_model(V.model_check(sc, MODULE_DIR, "TopicMigrateMC.tla", "TopicMigrate.cfg", workers=2, timeout=600))
+    pre = V.model_check(sc, MODULE_DIR, "TopicMigrateMC.tla", "TopicMigrate_prefix.cfg", workers=2, timeout=600,
+                        expect_violation=["Restartable"])
+    R.notes["migration_model_counterexample_before_fix_504e8c9"] = pre["violated"] or "none"
+    out2, meta2 = V.run_driver(sc, "c08mig", tier, seed, timeout=1200)
+    R.add_meta(meta2)
+    mv = _validate_jobs(sc, [("migration", f, "TopicMigrateTrace.tla", "TopicMigrateTrace.cfg") for f in meta2["trace_files"]]).get("migration", EMPTY)
+    R.states += mv["states"]
+    R.handle_validation(mv, what="restart inside the topic store migration loses the alert state or fails (verdict level)")
     verdict_rejected = bool(val["rejections"])
     if drift:
         for d in drift[:5]:
